@@ -491,7 +491,7 @@ class Ctx:
     """One path of one scenario (symbolic mode)."""
 
     cur: "Ctx | None" = None
-    SOLVER_TIMEOUT_MS = 30000
+    SOLVER_TIMEOUT_MS = 120000
     MAX_CONCRETIZE = 64
     MAX_DEPTH = 4000
 
